@@ -1249,6 +1249,41 @@ func genConc(r *rand.Rand, goroutines, rounds int) {
 		[]string{"codec=" + rc.name, fmt.Sprintf("goroutines=%d", goroutines)})
 }
 
+// many goroutines, many short streams on ONE codec value: the window between a pooled
+// object being released and being re-initialised is a few instructions wide, only a tight
+// loop of small streams finds another goroutine inside it
+func genConcTight(r *rand.Rand, rc refCodec, goroutines, rounds int) {
+	pseed := r.Int63()
+	codec := rc.shared
+	var wg sync.WaitGroup
+	whys := make([]string, goroutines)
+	for g := 0; g < goroutines; g++ {
+		wg.Add(1)
+		go func(g int) {
+			defer wg.Done()
+			pr := rand.New(rand.NewSource(pseed + int64(g)))
+			for i := 0; i < rounds; i++ {
+				payload := []byte(fmt.Sprintf("goroutine=%02d iteration=%05d;", g, i))
+				payload = append(payload, bytes.Repeat([]byte{byte('a' + g%26)}, 16+pr.Intn(1000))...)
+				if why := roundTrip(pr, rc, codec, payload, []int{len(payload)}, []int{len(payload) + 16}); why != "" {
+					whys[g] = fmt.Sprintf("goroutine%d-round%d:%s", g, i, why)
+					return
+				}
+			}
+		}(g)
+	}
+	wg.Wait()
+	why := ""
+	for _, w := range whys {
+		if w != "" {
+			why = w
+			break
+		}
+	}
+	emit("conc", fmt.Sprintf("%s %x %x %x", rc.name, pseed, goroutines, rounds), okOr(why),
+		[]string{"codec=" + rc.name, fmt.Sprintf("goroutines=%d", goroutines), "tight"})
+}
+
 // ----------------------------------------------------------------------------- pool discipline
 
 type poolKind struct {
@@ -1413,6 +1448,7 @@ func main() {
 	nrt := flag.Int("nrt", 300, "public-API round-trip cases")
 	nhist := flag.Int("nhist", 60, "pooled-history cases")
 	nconc := flag.Int("nconc", 10, "concurrent cases")
+	ntight := flag.Int("ntight", 250, "rounds per goroutine of the tight concurrent run (per codec)")
 	npool := flag.Int("npool", 30, "pool-discipline cases per codec side")
 	flag.Parse()
 	out = bufio.NewWriterSize(os.Stdout, 1<<20)
@@ -1457,5 +1493,8 @@ func main() {
 	}
 	for i := 0; i < *nconc; i++ {
 		genConc(r, 2+r.Intn(14), 4+r.Intn(8))
+	}
+	for _, rc := range refCodecs {
+		genConcTight(r, rc, 48, *ntight)
 	}
 }
